@@ -127,6 +127,16 @@ class Editor:
             self.lost.append(f'delete_index(obj): indexes afterwards {[getattr(x, "comment", None) for x in got]}, expected the list without '
                              f'the given object {[getattr(x, "comment", None) for x in want]}')
 
+    def expr_inplace(self, c):
+        """edit the text of an Expression default in place (gives the column one first if it has none)"""
+        from pydbml.classes import Expression
+        if not isinstance(c.default, Expression):
+            self.set(c, 'default', Expression(self.rng.choice(['now()', 'id * 2'])))
+        else:
+            newt = self.tok('expr_') + '()'
+            c.default.text = newt
+            self.expect_token(c, 'default', newt)
+
     def twin_default(self, c):
         """assign a default that compares == to the current one but is a different value for rendering"""
         pairs = [(True, 1), (1, True), (False, 0), (0, False), (1.0, 1), (2, 2.0), (2.0, 2), (5, 5.0), (0.0, 0)]
@@ -197,6 +207,7 @@ class Editor:
                     ('column-default', lambda: self.set(c, 'default', rng.choice(
                         [None, 0, 1, 2.5, True, False, '', self.tok('dv'), Expression('now()'), 'NULL']))),
                     ('column-default-equal-twin', lambda: self.twin_default(c)),
+                    ('expression-default-inplace', lambda: self.expr_inplace(c)),
                     ('column-note-same-text-then-edit', lambda: self.note_same_text_then_edit(c)),
                     ('column-note-replace', lambda: self.set(c, 'note', Note(self.tok('cnote ')))),
                     ('column-note-inplace', lambda: self.set(c.note, 'text', self.tok('cnote '))),
@@ -213,7 +224,7 @@ class Editor:
             r_ = rng.choice(R)
             out += [('ref-kind', lambda: self.set(r_, 'type', rng.choice(['>', '<', '-', '<>']))),
                     ('ref-inline', lambda: setattr(r_, 'inline', not r_.inline)),     # no read-back: <> never reads back as inline
-                    ('ref-name', lambda: self.set(r_, 'name', rng.choice([None, self.tok('rn')]))),
+                    ('ref-name', lambda: self.set(r_, 'name', rng.choice([None, '', self.tok('rn')]))),
                     ('ref-actions', lambda: (self.set(r_, 'on_update', rng.choice([None, 'cascade', 'set null'])),
                                              self.set(r_, 'on_delete', rng.choice([None, 'restrict', 'no action'])))),
                     ('ref-comment', lambda: self.set(r_, 'comment', rng.choice([None, self.tok('rc ')])))]
@@ -345,7 +356,7 @@ def run_shard(spec, tier, seed, budget_s):
     return sh
 
 
-NEED_EDITS = ['add-twin-index', 'remove-index-by-object', 'column-default-equal-twin', 'column-note-same-text-then-edit', 'rename-table', 'rename-schema', 'rename-alias', 'rename-column', 'rename-enum', 'column-type-str', 'column-type-enum',
+NEED_EDITS = ['expression-default-inplace', 'add-twin-index', 'remove-index-by-object', 'column-default-equal-twin', 'column-note-same-text-then-edit', 'rename-table', 'rename-schema', 'rename-alias', 'rename-column', 'rename-enum', 'column-type-str', 'column-type-enum',
               'column-flag', 'column-default', 'column-note-replace', 'column-note-inplace', 'table-note-replace', 'ref-kind',
               'ref-inline', 'ref-name', 'ref-actions', 'add-column', 'add-index', 'add-enum-item', 'remove-index', 'rename-group']
 
